@@ -57,6 +57,7 @@ fn request_bytes(n: usize) -> Vec<u8> {
 }
 
 pub async fn run_case(case: Vec<String>) -> String {
+    *READ_GATE.lock() = None;
     let incoming = case[2] == "in";
     let remote: SocketAddr = "10.9.9.9:5060".parse().unwrap();
     let delivered: Arc<Mutex<usize>> = Default::default();
@@ -130,6 +131,11 @@ pub async fn run_case(case: Vec<String>) -> String {
                         io.write_all(&request_bytes(nframes)).await.ok();
                     }
                 }
+                "gate" => {
+                    // what the peer writes from now on becomes readable this many microseconds from now
+                    let us: u64 = p[1].parse().unwrap();
+                    *READ_GATE.lock() = Some(tokio::time::Instant::now() + Duration::from_micros(us));
+                }
                 "close" => {
                     peer = None;
                 }
@@ -175,5 +181,6 @@ pub async fn run_case(case: Vec<String>) -> String {
     }
     drop(held);
     drop(extra);
+    *READ_GATE.lock() = None;
     outs.join(";")
 }
